@@ -144,6 +144,16 @@ type c04SeqOut struct {
 	R [][]int64 // per op [out, Len after, IsEmpty after]
 }
 
+// after two operations of a mailbox kind did not return, later cases of that kind wait less
+var c04Hangs = map[string]int{}
+
+func c04Patience(kind string) time.Duration {
+	if c04Hangs[kind] >= 2 {
+		return 2 * time.Second
+	}
+	return 15 * time.Second
+}
+
 func c04Timed(d time.Duration, f func() int64) (int64, bool, chan int64) {
 	ch := make(chan int64, 1)
 	go func() { ch <- f() }()
@@ -183,7 +193,7 @@ func c04SeqCaseRun(ci int, c c04SeqCase) c04SeqOut {
 	}()
 	select {
 	case <-done:
-	case <-time.After(30 * time.Second):
+	case <-time.After(60 * time.Second):
 		mu.Lock()
 		out.R = append(append([][]int64{}, out.R...), []int64{-2, -9, -9})
 		mu.Unlock()
@@ -212,7 +222,7 @@ func c04SeqCaseBody(c c04SeqCase, outp *c04SeqOut, mu *sync.Mutex) {
 					r = c04EnqCode(mb.Enqueue(rc))
 					break
 				}
-				wait := 3 * time.Second
+				wait := c04Patience(c.K)
 				if op[0] == 4 {
 					wait = 40 * time.Millisecond
 				}
@@ -237,8 +247,9 @@ func c04SeqCaseBody(c c04SeqCase, outp *c04SeqOut, mu *sync.Mutex) {
 				if !blocking {
 					r = deq()
 				} else {
-					v, done, _ := c04Timed(3*time.Second, deq)
+					v, done, _ := c04Timed(c04Patience(c.K), deq)
 					if !done {
+						c04Hangs[c.K]++
 						r = -2 // Dequeue does not return
 						abort = true
 					} else {
@@ -248,7 +259,8 @@ func c04SeqCaseBody(c c04SeqCase, outp *c04SeqOut, mu *sync.Mutex) {
 				if pending != nil && !abort {
 					select {
 					case <-pending:
-					case <-time.After(3 * time.Second):
+					case <-time.After(c04Patience(c.K)):
+						c04Hangs[c.K]++
 						r = -5 // the blocked Enqueue did not resume after a Dequeue
 						abort = true
 					}
@@ -294,6 +306,14 @@ type c04Scenario struct {
 	RandomRuns int
 	Drain      int
 	Scripts    [][][]int // directed schedules: list of [thread, steps] segments (steps < 0: until the thread returns)
+	Traces     int       // number of runs whose atomic-step trace is written out (model conformance)
+}
+
+type c04Trace struct {
+	Steps [][]string // [thread, label executed]
+	Deqs  []int64    // results of every Dequeue of box 0 in order (concurrent phase, then drain)
+	Obs   []int64    // results of every Dequeue and IsEmpty of box 0 in order (concurrent phase, then drain)
+	Len   int64
 }
 
 type c04Ev struct {
@@ -311,6 +331,7 @@ type c04Step struct {
 	chosen     int
 	cur        int
 	curEnabled bool
+	at         string // the yield point the chosen thread was paused at (the operation it now executes)
 }
 
 type c04Yield struct {
@@ -497,7 +518,7 @@ func c04Execute(sc *c04Scenario, prefix []int, policy func(step int, enabled []i
 			verifMbHook.Store(nil)
 			return r
 		}
-		r.steps = append(r.steps, c04Step{enabled: enabled, chosen: chosen, cur: curID, curEnabled: curEnabled})
+		r.steps = append(r.steps, c04Step{enabled: enabled, chosen: chosen, cur: curID, curEnabled: curEnabled, at: r.threads[chosen].at})
 		t := r.threads[chosen]
 		r.cur = t
 		curID = chosen
@@ -865,6 +886,7 @@ type c04SchedSummary struct {
 	Sample     []string
 	Hung       bool
 	Millis     int64
+	Traces     []c04Trace
 }
 
 func c04Explore(sc *c04Scenario, rng *verifRNG) (sum c04SchedSummary) {
@@ -899,6 +921,21 @@ func c04Explore(sc *c04Scenario, rng *verifRNG) (sum c04SchedSummary) {
 			}
 			sum.Hung = true
 			return
+		}
+		if len(sum.Traces) < sc.Traces && r.hung == "" && r.panicked == "" {
+			tr := c04Trace{Len: r.finalLn[0]}
+			for _, st := range r.steps {
+				tr.Steps = append(tr.Steps, []string{fmt.Sprint(st.chosen), st.at})
+			}
+			for _, e := range r.hist {
+				if e.Res && e.Code == 1 && e.Box == 0 {
+					tr.Deqs = append(tr.Deqs, e.Out)
+				}
+				if e.Res && (e.Code == 1 || e.Code == 3) && e.Box == 0 {
+					tr.Obs = append(tr.Obs, e.Out)
+				}
+			}
+			sum.Traces = append(sum.Traces, tr)
 		}
 		if r.panicked != "" {
 			sum.SigCounts[sc.K+":panic"]++
@@ -1058,6 +1095,7 @@ func c04Stress(cfg c04StressCfg, seed uint64) (out c04StressOut) {
 		defer runtime.GOMAXPROCS(runtime.GOMAXPROCS(cfg.Procs))
 	}
 	start := time.Now()
+	out.Cfg = cfg
 	var mu sync.Mutex
 	add := func(sig, what string) {
 		for _, v := range out.Violations {
@@ -1177,7 +1215,17 @@ func c04Stress(cfg c04StressCfg, seed uint64) (out c04StressOut) {
 		_ = lastKey
 		_ = haveLast
 	}
-	wg.Wait()
+	// a producer that never returns (e.g. looping over a corrupted segment chain) must not hang the harness
+	allBack := make(chan struct{})
+	go func() { wg.Wait(); close(allBack) }()
+	select {
+	case <-allBack:
+	case <-time.After(10 * time.Second):
+		add("hang", fmt.Sprintf("%d of %d producers did not return from Enqueue", cfg.Producers-int(nDone.Load()), cfg.Producers))
+		out.Accepted, out.Rejected, out.Dequeued = int(nAcc.Load()), int(nRej.Load()), deq
+		out.Millis = time.Since(start).Milliseconds()
+		return out
+	}
 	// after quiescence: whatever is left must come out, in priority order for the priority kinds
 	var rest []*c04Msg
 	for i := 0; i < total+4; i++ {
